@@ -162,6 +162,7 @@ func cmdSelftest(args []string) {
 	fs := flag.NewFlagSet("selftest", flag.ExitOnError)
 	repo := fs.String("repo", "/repo", "repository directory")
 	only := fs.String("only", "", "run only entries whose name contains this substring")
+	onlyProp := fs.String("property", "", "run only entries that list this property, and check only this property")
 	fs.Parse(args)
 	vdir := verifDir()
 	b, err := os.ReadFile(filepath.Join(vdir, "selftest", "corpus.json"))
@@ -186,6 +187,18 @@ func cmdSelftest(args []string) {
 	for _, en := range corpus.Entries {
 		if *only != "" && !strings.Contains(en.Name, *only) {
 			continue
+		}
+		if *onlyProp != "" {
+			has := false
+			for _, pr := range en.Properties {
+				if pr == *onlyProp {
+					has = true
+				}
+			}
+			if !has {
+				continue
+			}
+			en.Properties = []string{*onlyProp}
 		}
 		scratch, err := os.MkdirTemp("", "rtv-selftest-")
 		if err != nil {
